@@ -441,7 +441,7 @@ func TestVerifHeaders(t *testing.T) {
 				if e != nil && firstBatch < 0 {
 					firstBatch = i
 				}
-			case <-time.After(10 * time.Second):
+			case <-time.After(3 * time.Minute):
 				batch = append(batch, "TIMEOUT")
 			}
 		}
